@@ -292,8 +292,13 @@ class ApiMergeStoreHandler(NbdimeHandler, APIHandler):
         # Somehow store unsolved conflicts?
         # conflicts = body['conflicts']
 
+        # Serialize before opening the file, so that a body that cannot be
+        # written as a notebook does not truncate the existing output file
+        content = nbformat.writes(merged_nb)
+        if not content.endswith(u'\n'):
+            content += u'\n'
         with io.open(path, 'w', encoding='utf8') as f:
-            nbformat.write(merged_nb, f)
+            f.write(content)
         self.finish()
 
 
